@@ -1,5 +1,5 @@
 (* ColorsFacts.v -- proofs about Colors.v (C17): hex colours for all strings, hash shortening, the name table *)
-From Coq Require Import QArith Lia.
+From Coq Require Import QArith Qabs Qround Qpower Lqa Lia Morphisms.
 From CssV Require Import Base Regex Numbers NumbersFacts Gen.Colors Colors.
 Local Open Scope Z_scope.
 
@@ -216,4 +216,132 @@ Proof.
     destruct (Qle_bool l (1 # 2)).
     + repeat split; rewrite hue_same by lra; unfold css3_hue; qb; lra.
     + repeat split; rewrite hue_same by lra; unfold css3_hue; qb; lra.
+Qed.
+
+(* ------------------------------------------------------------------ hsl(): the exact stage for any hue *)
+Lemma qmod1_range x : 0 <= qmod1 x /\ qmod1 x < 1.
+Proof.
+  unfold qmod1. pose proof (Qfloor_le x). pose proof (Qlt_floor x).
+  rewrite inject_Z_plus in H0. change (inject_Z 1) with 1 in H0. split; lra.
+Qed.
+
+Lemma qmod1_shift y k : qmod1 (y - inject_Z k) == qmod1 y.
+Proof.
+  unfold qmod1. assert (F : Qfloor (y - inject_Z k) = (Qfloor y - k)%Z).
+  { pose proof (Qfloor_le y). pose proof (Qlt_floor y). rewrite inject_Z_plus in H0.
+    apply Qfloor_unique.
+    - unfold Z.sub. rewrite inject_Z_plus, inject_Z_opp. lra.
+    - unfold Z.sub. rewrite !inject_Z_plus, inject_Z_opp. lra. }
+  rewrite F. unfold Z.sub. rewrite inject_Z_plus, inject_Z_opp. ring.
+Qed.
+
+Global Instance qmod1_comp : Proper (Qeq ==> Qeq) qmod1.
+Proof. intros x y E. unfold qmod1. rewrite (Qfloor_comp x y E). rewrite E. reflexivity. Qed.
+
+Lemma Qlt_b_comp a a' b : a == a' -> Qlt_b a b = Qlt_b a' b.
+Proof.
+  intros E. destruct (Qlt_b a' b) eqn:H.
+  - apply Qlt_b_true. apply Qlt_b_true in H. rewrite E. exact H.
+  - apply Qlt_b_false. apply Qlt_b_false in H. rewrite E. exact H.
+Qed.
+
+Lemma hue_v_periodic m1 m2 y y' : qmod1 y == qmod1 y' -> hue_v m1 m2 y == hue_v m1 m2 y'.
+Proof.
+  intros E. unfold hue_v. cbv zeta.
+  rewrite (Qlt_b_comp _ _ (1 # 6) E), (Qlt_b_comp _ _ (1 # 2) E), (Qlt_b_comp _ _ (2 # 3) E).
+  destruct (Qlt_b (qmod1 y') (1 # 6)); [rewrite E; reflexivity|].
+  destruct (Qlt_b (qmod1 y') (1 # 2)); [reflexivity|].
+  destruct (Qlt_b (qmod1 y') (2 # 3)); [rewrite E; reflexivity|reflexivity].
+Qed.
+
+Lemma hue_v_norm m1 m2 x c : hue_v m1 m2 (x + c) == hue_v m1 m2 (qmod1 x + c).
+Proof.
+  apply hue_v_periodic.
+  transitivity (qmod1 (x + c - inject_Z (Qfloor x))).
+  - symmetry. apply qmod1_shift.
+  - apply qmod1_comp. unfold qmod1. ring.
+Qed.
+
+(* colorsys on the raw hue (any rational, e.g. 480/360 or -120/360) = CSS3 4.2.4 on the hue normalised to [0,1) *)
+Theorem hls_any_hue_is_css3 h sat l :
+  let '(r, g, b) := hls_to_rgb h l sat in let '(r', g', b') := css3_hsl (qmod1 h) sat l in
+  r == r' /\ g == g' /\ b == b'.
+Proof.
+  destruct (qmod1_range h) as [H0 H1].
+  pose proof (hls_is_css3 (qmod1 h) sat l H0 H1) as H.
+  unfold hls_to_rgb in *. destruct (Qeq_bool sat 0); [exact H|].
+  destruct (css3_hsl (qmod1 h) sat l) as [[r' g'] b'].
+  destruct H as (Hr & Hg & Hb).
+  repeat split.
+  - rewrite <- Hr. apply hue_v_norm.
+  - rewrite <- Hg. apply hue_v_periodic. symmetry. exact (qmod1_shift h (Qfloor h)).
+  - rewrite <- Hb. unfold Qminus. apply hue_v_norm.
+Qed.
+
+(* what fn_color computes for hsl(): the exact components before int(round(.)) *)
+Theorem hsl_fn_model dbl h sat l :
+  fn_color dbl (s "hsl(") [CNum h; CPct sat; CPct l] =
+  let '(r, g, b) := hls_to_rgb (pyq h / inject_Z 360) (pyq l / inject_Z 100) (pyq sat / inject_Z 100) in
+  FRgba (r * inject_Z 255) (g * inject_Z 255) (b * inject_Z 255) 1 false.
+Proof. reflexivity. Qed.
+
+(* rounding stage: int(round(x)) for any sign *)
+Lemma rhe_err_all x : Qabs (inject_Z (rhe x) - x) <= 1 # 2.
+Proof.
+  destruct (Qlt_le_dec x 0) as [Hn|Hp]; [|apply rhe_err; assumption].
+  destruct x as [a b]. unfold Qlt in Hn. cbn in Hn. unfold rhe. cbn [Qnum Qden].
+  destruct (Z.ltb_spec a 0); [|lia].
+  pose proof (rne_div_err (- a) (Zpos b) ltac:(lia) ltac:(lia)) as E.
+  apply Qabs_Qle_condition. unfold Qle, Qminus, Qplus, Qopp, inject_Z. cbn [Qnum Qden]. split; lia.
+Qed.
+
+(* DESIGN hsl_fn_spec, in two stages: whatever binary64 evaluation x of r*255 the code rounds, if it is within
+   delta of the exact value X = 255 * css3 component, the reported integer is within 1/2 + delta of X *)
+Theorem hsl_round_stage x X delta :
+  Qabs (x - X) <= delta -> Qabs (inject_Z (rhe x) - X) <= (1 # 2) + delta.
+Proof.
+  intros H. pose proof (rhe_err_all x) as E.
+  apply Qabs_Qle_condition in H. apply Qabs_Qle_condition in E. apply Qabs_Qle_condition. split; lra.
+Qed.
+
+(* ------------------------------------------------------------------ rgb() percentages *)
+Theorem pct255_int z :
+  pct255 dbl_exec (PyInt z) = inject_Z (qtrunc (dbl_exec (inject_Z (255 * z) / inject_Z 100))).
+Proof. reflexivity. Qed.
+Theorem pct255_float v :
+  pct255 dbl_exec (PyFloat v) = inject_Z (qtrunc (dbl_exec (dbl_exec (inject_Z 255 * v) / inject_Z 100))).
+Proof. reflexivity. Qed.
+
+(* a fractional percentage: the stored binary64 value v goes through two more roundings and a truncation *)
+Theorem pct_float_spec v :
+  0 <= v -> v <= inject_Z (10 ^ 12) ->
+  let w := inject_Z 255 * v / inject_Z 100 in
+  let t := pct255 dbl_exec (PyFloat v) in
+  w - 1 - w * (1 # 2251799813685248) - tiny * (3 # 1) < t /\ t <= w + w * (1 # 2251799813685248) + tiny * (3 # 1).
+Proof.
+  intros Hv0 Hv w t. unfold t. rewrite pct255_float.
+  destruct dbl_exec_binary64 as (Herr & Hpos & _ & _).
+  change (inject_Z 255) with (255 # 1) in *. change (inject_Z 100) with (100 # 1) in *.
+  change (inject_Z (10 ^ 12)) with (1000000000000 # 1) in Hv.
+  set (y1 := dbl_exec ((255 # 1) * v)).
+  assert (Hx1 : 0 <= (255 # 1) * v) by lra.
+  assert (Hm1 : Qabs ((255 # 1) * v) <= maxq).
+  { rewrite Qabs_pos by assumption. unfold maxq. change (inject_Z (10 ^ 308)) with (inject_Z (10 ^ 308 - 10 ^ 15) + (1000000000000000 # 1)).
+    assert (0 <= inject_Z (10 ^ 308 - 10 ^ 15)) by (vm_compute; discriminate). lra. }
+  pose proof (Herr _ Hm1) as E1. rewrite (Qabs_pos _ Hx1) in E1. apply Qabs_Qle_condition in E1. fold y1 in E1.
+  pose proof (Hpos _ Hx1) as Hy1. fold y1 in Hy1.
+  assert (Ht : 0 <= tiny) by discriminate.
+  assert (Htiny : tiny <= 1 # 1000) by (vm_compute; discriminate).
+  set (x2 := y1 / (100 # 1)).
+  assert (Ex2 : x2 == y1 * (1 # 100)) by (unfold x2; field).
+  assert (Hx2 : 0 <= x2) by lra.
+  assert (Hm2 : Qabs x2 <= maxq).
+  { rewrite Qabs_pos by assumption. unfold maxq. change (inject_Z (10 ^ 308)) with (inject_Z (10 ^ 308 - 10 ^ 15) + (1000000000000000 # 1)).
+    assert (0 <= inject_Z (10 ^ 308 - 10 ^ 15)) by (vm_compute; discriminate). unfold eps53 in *. lra. }
+  pose proof (Herr _ Hm2) as E2. rewrite (Qabs_pos _ Hx2) in E2. apply Qabs_Qle_condition in E2.
+  pose proof (Hpos _ Hx2) as Hy2.
+  set (y2 := dbl_exec x2) in *.
+  destruct (qtrunc_bounds y2 Hy2) as [T1 T2]. rewrite inject_Z_plus in T2. change (inject_Z 1) with 1 in T2.
+  assert (Ew : w == v * (255 # 100)) by (unfold w; field).
+  unfold eps53 in *. split; lra.
 Qed.
